@@ -56,8 +56,9 @@ impl GraphStore for GraphEngine {
     type Snapshot = StorageSnapshot;
 
     fn snapshot(&self) -> Self::Snapshot {
+        let _publication = self.publication_guard();
         let i2e = Arc::new(self.scan_i2e_records());
-        let inner = self.begin_read();
+        let inner = self.begin_read_published();
         let tombstoned_nodes: HashSet<InternalNodeId> = collect_tombstoned_nodes(inner.runs());
         StorageSnapshot {
             inner,
